@@ -270,7 +270,8 @@ class OutEvents:
             elif k.endswith('as core::fmt::Display>::fmt') and hit == [1]:
                 self.events[bi] = [('val', ct[2][0], 'display:' + k)]
             elif k in ('alloc::string::String::len', 'alloc::string::String::capacity', 'alloc::string::String::is_empty',
-                       'alloc::string::String::reserve', 'alloc::string::String::as_str'):
+                       'alloc::string::String::reserve', 'alloc::string::String::as_str', 'alloc::string::String::shrink_to_fit',
+                       'alloc::string::String::shrink_to', 'alloc::string::String::reserve_exact', 'alloc::string::String::as_bytes'):
                 continue
             else:
                 self.events[bi] = [('unknown', 'the output is passed to %s' % (k or 'an indirect call'))]
